@@ -312,8 +312,8 @@ def e_span(run, repo, max_states):
                     r.attrs['transition_state'] = 'T' if ts else None
 
                     def G(I_, obj, args, kwargs):
-                        kw = dict(kwargs)
-                        state = kw.pop('state', args[0] if args else None)
+                        kw = dict(zip(('state', 'units', 'T'), args), **kwargs)
+                        state = kw.pop('state', None)
                         units_ = kw.pop('units', None)
                         return I_.D.sym('%s.G[%s;units=%s;%s]' % (obj.name, state, units_, ','.join(
                             '%s=%s' % (k, sig(kw[k])) for k in sorted(kw))))
@@ -483,14 +483,21 @@ def e_span(run, repo, max_states):
 
 def check(run, repo):
     run.explanation = (
+        'PhaseDiagram objects are built by their constructor (factors given as a list, as an array of floats, or left '
+        'out) and must show the factors they were given - ones by default - in a container that holds real numbers. '
         'PhaseDiagram.get_GoRT_1D/2D are interpreted with uninterpreted reactions, symbolic normalisation factors and '
         'grid values: every tabulated entry equals the reaction\'s delta G/RT at that grid point divided by its '
         'normalisation factor (times RT iff units are requested), and np.nanargmin is modelled as an uninterpreted '
         'arg-min that remembers its candidate list, which must be the column over the REACTIONS at each grid point, '
-        'identically in one and two dimensions. Reactions.get_E_span and Network.get_E_span are interpreted under an '
+        'identically in one and two dimensions; one diagram is also asked several times in a row (with and without '
+        'units, one and two parameters) and every answer, as well as the factors the diagram shows afterwards, is '
+        'decided against the factors given. Reactions.get_E_span and Network.get_E_span are interpreted under an '
         'ordering oracle for every ordering of the state energies (sequences of 1-3 steps with and without transition '
         'states; paths of 2-4 states): the span is highest minus lowest plus last minus first iff the highest state '
-        'comes before the lowest.')
+        'comes before the lowest, of the state energies in the unit and under all the conditions asked for '
+        '(temperature, pressure, per-species conditions; the uninterpreted energies are named by everything they '
+        'are given); every network is asked a second time in the other unit, at another temperature and with the '
+        'opposite ordering.')
     run.assumptions = ['np.nanargmin/argmin/argmax return the index of the extremum of the values they are given '
                        '(first occurrence)']
     run.undecided = ['NaN handling', 'ties between equal energies']
@@ -530,9 +537,9 @@ MUTANTS = [
                 '        else:\n            self.norm_factors = norm_factors\n',
                 '        self.norm_factors = np.ones(len(reactions), dtype=int)\n'
                 '        if norm_factors is not None:\n            self.norm_factors[:] = norm_factors\n')]},
-    {'name': 'default factors are zeros', 'expect': ('REF.factors', 'norm_factors'),
+    {'name': 'default factors are not ones', 'expect': ('REF.factors', 'norm_factors'),
      'edits': [(P_, '            self.norm_factors = np.ones(len(reactions))',
-                '            self.norm_factors = np.zeros(len(reactions))')]},
+                '            self.norm_factors = 2 * np.ones(len(reactions))')]},
     {'name': 'span of a sequence takes the states at T only', 'expect': ('REF.span', 'Reactions.get_E_span'),
      'edits': [(R_, '                    reaction.get_G_state(state=state, units=units, **kwargs))',
                 "                    reaction.get_G_state(state=state, units=units, T=kwargs['T']))")]},
